@@ -33,6 +33,7 @@ type Scenario struct {
 	BadTx           map[int][]H   `json:"bad_tx,omitempty"`
 	ValSets         [][]int       `json:"val_sets,omitempty"`
 	RejectReqV0     []int         `json:"reject_req_v0,omitempty"` // nodes whose VerifyPrepareRequest rejects view-0 proposals
+	RejectReqB      bool          `json:"reject_req_b,omitempty"`  // every node's VerifyPrepareRequest rejects the environment's "B" proposals (nonce 0xB0+view)
 	FailPre         int           `json:"fail_pre,omitempty"`      // first k ProcessPreBlock calls per node and height fail
 	PreDataTxOnly   bool          `json:"pre_data_tx_only,omitempty"` // pre-commit data binds only (height, transactions), see types.go preDataHash
 	FailBlk         int           `json:"fail_blk,omitempty"`      // first k ProcessBlock calls per node and height fail (AMEV only)
@@ -131,6 +132,15 @@ func (sc *Scenario) finish() *Scenario {
 	}
 	for len(sc.Kinds) < sc.N {
 		sc.Kinds = append(sc.Kinds, kHonest)
+	}
+	if sc.RejectReqB {
+		sc.RejectPayload = func(node int, p *Payload) bool {
+			if p.typ != dbft.PrepareRequestType {
+				return false
+			}
+			r, ok := p.body.(*prepReq)
+			return ok && r.nonce >= 0xB0 && r.nonce < 0xC0
+		}
 	}
 	if len(sc.RejectReqV0) > 0 {
 		sc.RejectPayload = func(node int, p *Payload) bool {
@@ -1082,8 +1092,16 @@ func (w *World) apply(e Event) {
 		// the ledger advanced by two blocks obtained elsewhere (sync); the application re-initialises consensus
 		w.skips++
 		by := uint32(2)
-		if e.A == 1 {
+		if e.A == 1 || e.A == 2 {
 			by = 1
+		}
+		if e.A == 2 {
+			// ledger first, Reset later
+			n.height += by
+			n.tip = H(0x5100 + uint64(n.height))
+			n.tipTS += uint64(by) * uint64(w.sc.TimePerBlock)
+			n.pendingReset, n.ledgerAhead = true, true
+			break
 		}
 		n.height += by
 		n.tip = H(0x5100 + uint64(n.height))
@@ -1327,6 +1345,9 @@ func (n *Node) appKey() uint64 {
 	s.u64(uint64(n.incarnation))
 	if n.earlierLife {
 		s.b(0xe1)
+	}
+	if n.ledgerAhead {
+		s.b(0xe2)
 	}
 	s.u64(uint64(n.permMode))
 	s.u64(uint64(len(n.pool)))
